@@ -183,6 +183,26 @@ fn kill_case(sink: &str, idx: usize, rng: &mut Rng, dir: &std::path::Path) -> St
     format!("!kill {sink} #{idx} acked={acked} file_bytes={}\t{verdict}", content.len())
 }
 
+/// For the translator (`tools/extract.py`, run under strace): build every sink in every mode on a fresh path, so
+/// that the `openat` flags the compiled code really uses can be read off the trace, whatever the source looks like.
+pub fn open_probe() {
+    use rustradio::file_sink::{FileSink, Mode, NoCopyFileSink};
+    let dir = tempfile::tempdir().unwrap();
+    for (mname, mk) in [("Create", 0), ("Overwrite", 1), ("Append", 2)] {
+        let mode = |k: i32| match k {
+            0 => Mode::Create,
+            1 => Mode::Overwrite,
+            _ => Mode::Append,
+        };
+        let p1 = dir.path().join(format!("probe-FileSink-{mname}"));
+        let (_w, r) = rustradio::stream::new_stream::<u8>();
+        let _ = FileSink::new(r, &p1, mode(mk));
+        let p2 = dir.path().join(format!("probe-NoCopyFileSink-{mname}"));
+        let (_tx, rx) = rustradio::stream::new_nocopy_stream::<Vec<u8>>();
+        let _ = NoCopyFileSink::new(rx, p2, mode(mk));
+    }
+}
+
 pub fn run(args: &[String]) -> Vec<String> {
     let seed = arg_usize(args, "--seed", 1) as u64;
     let kills = arg_usize(args, "--kills", 30);
